@@ -277,7 +277,13 @@ func (s *SpecValidator) validateSchemaPropertyNames(nm string, sch spec.Schema, 
 	schc := &sch
 	res := pools.poolOfResults.BorrowResult()
 
+	seenRefs := make(map[string]struct{})
 	for schc.Ref.String() != "" {
+		if _, seen := seenRefs[schc.Ref.String()]; seen {
+			// a cycle of definitions which are nothing but a $ref: there are no properties to gather
+			return dups, res
+		}
+		seenRefs[schc.Ref.String()] = struct{}{}
 		// gather property names
 		reso, err := s.resolveRef(&schc.Ref)
 		if err != nil {
@@ -322,7 +328,13 @@ func (s *SpecValidator) validateCircularAncestry(nm string, sch spec.Schema, kno
 	schn := nm
 	schc := &sch
 
+	seenRefs := make(map[string]struct{})
 	for schc.Ref.String() != "" {
+		if _, seen := seenRefs[schc.Ref.String()]; seen {
+			// a cycle of definitions which are nothing but a $ref would be followed forever
+			return append(ancs, schc.Ref.String()), res
+		}
+		seenRefs[schc.Ref.String()] = struct{}{}
 		reso, err := s.resolveRef(&schc.Ref)
 		if err != nil {
 			errorHelp.addPointerError(res, err, schc.Ref.String(), nm)
